@@ -109,16 +109,19 @@ def dumpDictStr : Obj → String
 def evalArgs (pushed : List NS) (locals : NS) (globals : List NS) (args : List (Name × Expr)) : NS :=
   dictOf (args.map fun a => (a.1, eval pushed locals globals a.2))
 
+/-- the value of a parameter: `env.undefined(name)` when nothing is bound, else the bound expression
+evaluated in the caller's scope -/
+def paramVal (pushed : List NS) (locals : NS) (globals : List NS) : Option Expr → Obj
+  | none => .val .undef
+  | some e => eval pushed locals globals e
+
 /-- the namespace a `call` builds for the macro -/
 def callNamespace (pushed : List NS) (locals : NS) (globals : List NS) (b : Bound) : NS :=
   let ev := eval pushed locals globals
   let base : NS :=
     [("args", .list (b.excessArgs.map fun e => asVal (ev e))),
      ("kwargs", .dict (b.excessKwargs.map fun p => (p.1, asVal (ev p.2))))]
-  b.args.foldl (fun ns p =>
-    dictSet ns p.1 (match p.2 with
-      | none => .val .undef
-      | some e => ev e)) base
+  b.args.foldl (fun ns p => dictSet ns p.1 (paramVal pushed locals globals p.2)) base
 
 mutual
 /-- `limit` = `context_depth_limit`, `depth` = `_copy_depth`, `base` = maps in the scope chain besides the pushed ones -/
